@@ -373,6 +373,11 @@ theorem Index.sameFileDefset_n  : Keeps R (Index.sameFileDefset ) := by
   keeps
 macro_rules | `(tactic| keeps_prim) => `(tactic| (apply Index.sameFileDefset_n <;> assumption))
 
+theorem Index.defDefset_n  : Keeps R (Index.defDefset ) := by
+  unfold Index.defDefset
+  keeps
+macro_rules | `(tactic| keeps_prim) => `(tactic| (apply Index.defDefset_n <;> assumption))
+
 theorem Index.checkTemplateArgs_n (a0 a1 a2 : _) : Keeps R (Index.checkTemplateArgs a0 a1 a2) := by
   unfold Index.checkTemplateArgs
   keeps
